@@ -236,8 +236,10 @@ theorem layout_facts :
     Facts.C04.decKeysSide = "c.encryptSide.DecryptSide()" ∧ Facts.C04.decMsgKeySide = "side" ∧
     Facts.C04.decSideIsFlipped = true ∧ Facts.C04.decryptSideFlips = true ∧
     Facts.C04.frameKeyIdLen = 8 ∧ Facts.C04.frameMsgKeyLen = 16 ∧ Facts.C04.dataLenChecked = true ∧
-    Facts.C04.gzipTypeID = 0x3072cfa1 ∧ Facts.C04.gzipFraming = true :=
-  ⟨rfl, rfl, rfl, rfl, rfl, rfl, rfl, rfl, rfl, rfl, rfl, rfl, rfl, rfl, rfl⟩
+    Facts.C04.gzipTypeID = 0x3072cfa1 ∧ Facts.C04.gzipFraming = true ∧
+    Facts.C04.dataDecodeCopy = Facts.C04.dataDecode ∧ Facts.C04.dataLenCheckedCopy = true ∧
+    Facts.C04.dataEncodeNoCopy = Facts.C04.dataEncode :=
+  ⟨rfl, rfl, rfl, rfl, rfl, rfl, rfl, rfl, rfl, rfl, rfl, rfl, rfl, rfl, rfl, by decide, rfl, by decide⟩
 
 /-- Non-vacuity: the hypotheses of `decrypt_encrypt` hold for a concrete message, and the statement
 is about a real ciphertext (toy primitives). -/
